@@ -131,6 +131,14 @@ def run_data_case(c):
             fr = Fraction(families.CLIM_PARAM["link_density"][v]).limit_denominator(100)
             rho = [fr.numerator, fr.denominator]
         obs(m + (":" + exc if exc else ""), rho)
+    # ... and, at the end of every history, the extreme densities 0, 1/12 and 1 (no link at all / every pair)
+    for num, den in ((0, 1), (1, 12), (1, 1)):
+        exc = ""
+        try:
+            obj.set_link_density(num / den)
+        except Exception as ex:
+            exc = type(ex).__name__
+        obs("set_link_density(%d/%d)" % (num, den) + (":" + exc if exc else ""), [num, den])
     return {"case": c["case"], "family": c["family"], "hist": c["hist"], "steps": steps}
 
 
